@@ -50,7 +50,9 @@ def run(ck, prog, tier):
     for mode in ('numeric', 'clear'):
         args = [V('steps'), V('rate'), V('accel'),
                 Str.lit('clear') if mode == 'clear' else V('accum')]
-        outs = Interp(prog, max_paths=400000).run(fn, args)
+        it_ = Interp(prog, max_paths=400000)
+        it_.trace_arith = True
+        outs = it_.run(fn, args)
         all_out += outs
         ck.saw('paths', '%s[%s]: %d paths' % (fn.qualname, mode, len(outs)))
         main_union, early_union = set(), set()
